@@ -6,6 +6,7 @@
 pub mod stubs;
 pub mod streams;
 
+pub mod c01_roundtrip;
 pub mod c02_decode;
 pub mod c03_limits;
 pub mod c06_convert;
